@@ -8,7 +8,8 @@ import importlib
 rp = json.load(open(sys.argv[1])); pid = rp['property']
 mod = importlib.import_module('props.' + pid.lower())
 os.environ['VERIF_ONLY'] = rp['case']
-cases = mod.cases('thorough') if 'tier' in mod.cases.__code__.co_varnames[:1] else mod.cases('thorough')
+cases = mod.cases('thorough')
+if isinstance(cases, tuple): cases = cases[0]
 c = [x for x in cases if x.name == rp['case']][0]
 c2 = Case(c.name + '_dbg', c.fixture, c.harness, rp['defs'], native_defs=c.native_defs)
 exe = native_pair(c2, c.fixture['workdir'])
